@@ -8,6 +8,7 @@ import (
 	"time"
 
 	. "github.com/pbenner/autodiff"
+	"github.com/pbenner/autodiff/algorithm/adam"
 	"github.com/pbenner/autodiff/algorithm/backSubstitution"
 	"github.com/pbenner/autodiff/algorithm/bfgs"
 	"github.com/pbenner/autodiff/algorithm/cholesky"
@@ -721,7 +722,7 @@ func TestC12_insitu_reuse_inputs_unchanged(t *testing.T) {
 // (d) optimizers do not move the starting point they were given
 
 func TestC12_optimizer_start_unchanged(t *testing.T) {
-	optimizers := []string{"rprop", "bfgs", "gradientDescent", "newton.RunRoot", "newton.RunCrit", "newton.RunMin"}
+	optimizers := []string{"rprop", "bfgs", "gradientDescent", "newton.RunRoot", "newton.RunCrit", "newton.RunMin", "adam", "rprop.RunGradient", "adam.RunGradient"}
 	rapid.Check(t, func(t *rapid.T) {
 		which := optimizers[rapid.IntRange(0, len(optimizers)-1).Draw(t, "optimizer")]
 		n := rapid.IntRange(1, 3).Draw(t, "n")
@@ -763,7 +764,8 @@ func TestC12_optimizer_start_unchanged(t *testing.T) {
 			}
 			return r, nil
 		}
-		moved := false
+		moved, shared := false, false
+		iters := rapid.IntRange(1, 40).Draw(t, "iterations")
 		p, to := guarded(func() {
 			var r ConstVector
 			switch which {
@@ -779,6 +781,29 @@ func TestC12_optimizer_start_unchanged(t *testing.T) {
 				r, _ = newton.RunCrit(f, x0, newton.MaxIterations{Value: 50})
 			case "newton.RunMin":
 				r, _ = newton.RunMin(f, x0, newton.MaxIterations{Value: 50})
+			case "adam":
+				r, _ = adam.Run(f, x0, adam.StepSize{Value: 0.05}, adam.MaxIterations{Value: iters})
+			case "rprop.RunGradient", "adam.RunGradient":
+				// the plain-float variants take a DenseFloat64Vector and a gradient function
+				gf := func(x, g DenseFloat64Vector) error {
+					for i := range x {
+						g[i] = 2 * (x[i] - target[i])
+					}
+					return nil
+				}
+				xf, ok := x0.(DenseFloat64Vector)
+				if !ok {
+					return
+				}
+				if which == "rprop.RunGradient" {
+					r, _ = rprop.RunGradient(rprop.DenseGradientF(gf), xf, 0.1, []float64{1.2, 0.5}, rprop.MaxIterations{Value: iters})
+				} else {
+					r, _ = adam.RunGradient(adam.DenseGradientF(gf), xf, adam.StepSize{Value: 0.05}, adam.MaxIterations{Value: iters})
+				}
+				// the result must not be the caller's storage either
+				if rv, ok := r.(DenseFloat64Vector); ok && len(rv) > 0 && len(xf) > 0 && &rv[0] == &xf[0] {
+					shared = true
+				}
 			}
 			if r != nil && r.Dim() == n {
 				for i := 0; i < n; i++ {
@@ -799,6 +824,9 @@ func TestC12_optimizer_start_unchanged(t *testing.T) {
 		c.NT(moved)
 		if canon(x0) != before {
 			t.Fatalf("%s: the starting point changed from %s to %s", c.Desc(), before, canon(x0))
+		}
+		if shared {
+			t.Fatalf("%s: the returned vector is the caller's starting vector (same storage)", c.Desc())
 		}
 		c.End()
 	})
